@@ -375,7 +375,11 @@ class Batch:
             return float("inf")
         if len(self.Y) == 0:
             return 1.0
-        return float(np.linalg.cond(self.C @ self.Sig @ self.C.T))
+        S = self.C @ self.Sig @ self.C.T
+        sv = np.linalg.svd(S, compute_uv=False)
+        if sv[-1] < 1e-9:
+            return float("inf")        # an observation with (numerically) zero prior variance: the Gaussian density is degenerate
+        return float(sv[0] / sv[-1])
 
 
 def batch_of_case(case) -> Batch:
